@@ -54,11 +54,31 @@ def _caps(draw, w):
     return draw(st.sampled_from([0, 1, 2, 3, 1000]))
 
 
-def _gen_step(ci, dom, nfiles):
+def _gen_step(ci, dom, nfiles, script=None):
+    script = list(script or [])
+
     def g(draw, w):
         roots = w.roots()
         if len(roots) < nfiles:
             return {"t": "new", "r": len(roots), "id": w.next_id()}
+        while script:
+            kind, r = script.pop(0)
+            tgt = roots[r % len(roots)]
+            if kind == "enter_small":
+                one = w._bytes(0) if w.strategy == "serialized" else 1
+                return {"t": "enter_cls", "h": roots[0], "cap": one}
+            if kind == "enter":
+                return {"t": "enter_cls", "h": roots[0]}
+            if kind == "exit":
+                if w.stack:
+                    return {"t": "exit"}
+                continue
+            if kind == "write":
+                return gen.draw_mutator(draw, w, tgt, dom, methods=["setitem"] if w.handles[tgt].kind == "dict" else ["append"], p_raise=0)
+            if kind == "clear":
+                return gen.draw_mutator(draw, w, tgt, dom, methods=["clear", "reset"], p_raise=0)
+            if kind == "read":
+                return gen.draw_read(draw, w, tgt, dom, methods=["call", "len"], refs=False)
         c = draw(st.integers(0, 29))
         if c < 3 and len(w.stack) < 4:
             return {"t": "enter_obj", "h": draw(st.sampled_from(roots))}
@@ -131,7 +151,15 @@ def run_shard(spec, seed, tier, active):
         draw = data.draw
         nfiles = draw(st.integers(2, 4))
         docs = [draw(dom.doc(ci.kind)) for _ in range(nfiles)]
-        w = wm.run_generated(ID, ci, docs, _gen_step(ci, dom, nfiles), draw, max_steps,
+        script = None
+        if draw(st.integers(0, 3)) == 0:
+            # two sessions around a forced flush: entries that survive a forced flush must not
+            # turn stale when their file is rewritten between the sessions
+            a, b = 0, 1
+            script = [("enter_small", 0), ("write", a), ("write", b), ("write", b), ("exit", 0),
+                      (draw(st.sampled_from(["clear", "write"])), a), ("enter", 0), ("read", a),
+                      ("write", a), ("exit", 0)]
+        w = wm.run_generated(ID, ci, docs, _gen_step(ci, dom, nfiles, script), draw, max_steps,
                              engine="acctworld")
         nt, kinds = _kinds(w)
         cnt = {"forced_flushes": w.forced, "cases_with_forced_flush": int(w.forced > 0)}
